@@ -249,15 +249,26 @@ func init() {
 		start := 0
 		k := 0
 		for k+len(sep) <= len(s) {
+			hasOpaque := false
+			for _, e := range s[k : k+len(sep)] {
+				if _, isO := e.(opaqueSeg); isO {
+					hasOpaque = true
+				}
+			}
+			if hasOpaque {
+				i.path.Imprecise("Split: formatted number assumed not to contain the separator")
+				k++
+				continue
+			}
 			if i.decide(i.strEq(mkStr(s[k:k+len(sep)]), mkStr(sep))) {
-				parts = append(parts, mkStr(s[start:k]))
+				parts = append(parts, mkStrOpaque(s[start:k]))
 				k += len(sep)
 				start = k
 			} else {
 				k++
 			}
 		}
-		parts = append(parts, mkStr(s[start:]))
+		parts = append(parts, mkStrOpaque(s[start:]))
 		return parts, true
 	}
 	ffiModels["fmt.Sprintf"] = modelSprintf
@@ -492,8 +503,14 @@ func modelSprintf(i *interpreter, fr *frame, args []value) (value, bool) {
 				out = append(out, opaqueSeg{i.nextOpaque(), verb})
 			}
 		case *Sym:
+			if verb == "%c" {
+				if _, _, isInt := intInfo(x.K); isInt {
+					out = append(out, i.normRune(x))
+					break
+				}
+			}
 			i.path.Imprecise("Sprintf of symbolic number")
-			out = append(out, opaqueSeg{i.nextOpaque(), verb + " of " + x.T.String()})
+			out = append(out, opaqueSeg{i.nextOpaque(), verb})
 		default:
 			if anySymbolic([]value{itf.v}) {
 				i.path.Imprecise("Sprintf of value containing symbolic data")
